@@ -581,7 +581,7 @@ func (c natCase) nonTrivial() bool {
 func TestPropNatEncoding(t *testing.T) {
 	e := newNatEnv(t)
 	defer e.close()
-	vstat.Checks(600, 12000)
+	vstat.Checks(1500, 24000)
 	rapid.Check(t, func(rt *rapid.T) {
 		c := genNat(rt)
 		runNat(rt, e, c)
